@@ -72,6 +72,7 @@ type World struct {
 	Timeout    time.Duration
 	IO         IOState
 	ChunkMem   bool            // values are held in memory as chunks (neutral callback configuration of C17)
+	Digests    []string        // per step: "<len> <md5>" of the file (when RunCfg.Digests)
 	Roots      [][]byte        // root records written by the successful flushes so far
 	PreImage   []byte          // file image before the Flush in progress
 	LastEvents []IOEvent       // file calls of the last API call
